@@ -210,7 +210,8 @@ Lemma map_identifiers_perm ids mapping ids' idx : map_identifiers ids mapping = 
   length ids' = length ids /\ is_perm (length ids) idx.
 Proof.
   unfold map_identifiers. destruct mapping as [m|].
-  - destruct (lookup_all m ids) eqn:E; try discriminate. intros H; inversion H; subst.
+  - destruct (lookup_all m ids) eqn:E; try discriminate. destruct (nodup_str l); try discriminate.
+    intros H; inversion H; subst.
     pose proof (lookup_all_length _ _ _ E) as HL. split; auto. rewrite <- HL. apply argsort_perm.
   - intros H; inversion H; subst. split; auto. apply is_perm_id.
 Qed.
@@ -218,6 +219,23 @@ Qed.
 Lemma map_identifiers_sorted ids m ids' idx : map_identifiers ids (Some m) = Some (ids', idx) ->
   StronglySorted (kle (fun i => nth i ids' EmptyString)) idx.
 Proof.
-  unfold map_identifiers. destruct (lookup_all m ids); try discriminate.
+  unfold map_identifiers. destruct (lookup_all m ids); try discriminate. destruct (nodup_str l); try discriminate.
   intros H; inversion H; subst. apply argsort_sorted.
+Qed.
+Lemma nodup_str_spec l : nodup_str l = true -> NoDup l.
+Proof.
+  induction l; simpl; intros H. constructor. apply andb_true_iff in H. destruct H as [H1 H2]. constructor; auto.
+  intros Hin. apply negb_true_iff in H1. assert (existsb (String.eqb a) l = true).
+  { apply existsb_exists. exists a. split; auto. apply String.eqb_refl. } congruence.
+Qed.
+(* the mapped identifiers are distinct (the code rejects mappings that are not one-to-one) *)
+Lemma map_identifiers_nodup ids m ids' idx : map_identifiers ids (Some m) = Some (ids', idx) -> NoDup ids'.
+Proof.
+  unfold map_identifiers. destruct (lookup_all m ids); try discriminate. destruct (nodup_str l) eqn:E; try discriminate.
+  intros H; inversion H; subst. apply nodup_str_spec; auto.
+Qed.
+Lemma sel_permutation {A} (d : A) l n idx : is_perm n idx -> length l = n -> Permutation (sel d l idx) l.
+Proof.
+  intros Hp HL. unfold sel. eapply Permutation_trans. apply Permutation_map. exact Hp.
+  fold (sel d l (seq 0 n)). rewrite sel_seq by auto. apply Permutation_refl.
 Qed.
